@@ -485,4 +485,60 @@ example :
     shardAwarePortOf { o with port := some [] } false = none ∧ shardAwarePortOf { o with port := none } false = none := by
   decide
 
+/-! ### the random shard fill-in of the plan: every shard number the driver PRODUCES is below the shard count -/
+
+/-- The range handed to `random_range` is never empty (`ShardCount` is `NonZeroU16`; 1 without a sharder): the draw
+cannot panic. -/
+theorem fillCount_pos (sharder : Option Nat) (h : ∀ n, sharder = some n → 0 < n) : 0 < fillCount sharder := by
+  unfold fillCount
+  cases sharder with
+  | none => decide
+  | some n => exact h n rfl
+
+/-- **A filled-in shard is below the node's shard count**, for every value the RNG can return for the half-open range
+`0..fillCount`; for a node without a sharder it is shard 0. -/
+theorem withRandomShard_lt (sharder : Option Nat) (r : Nat) (hr : r < fillCount sharder) :
+    withRandomShard none r < fillCount sharder ∧ (sharder = none → withRandomShard none r = 0) := by
+  refine ⟨hr, ?_⟩
+  intro h
+  subst h
+  simp only [fillCount] at hr
+  simp only [withRandomShard]
+  omega
+
+/-- An explicit shard is passed through unchanged. -/
+theorem withRandomShard_explicit (s r : Nat) : withRandomShard (some s) r = s := rfl
+
+/-- Plan level: whatever entries a policy returns and whatever the RNG draws within its ranges, every entry the policy
+left without a shard comes out with a shard below its node's shard count (one output per entry, in order). -/
+theorem planShards_lt (entries : List (Option Nat × Option Nat)) (draws : Nat → Nat)
+    (hd : ∀ (i : Nat) (e : Option Nat × Option Nat), entries[i]? = some e → draws i < fillCount e.1) :
+    (planShards entries draws).length = entries.length ∧
+    ∀ (i : Nat) (e : Option Nat × Option Nat) (o : Option Nat × Nat), entries[i]? = some e → (planShards entries draws)[i]? = some o →
+      o.1 = e.1 ∧ (e.2 = none → o.2 < fillCount e.1) ∧ (∀ s, e.2 = some s → o.2 = s) := by
+  unfold planShards
+  refine ⟨by simp, ?_⟩
+  intro i e o he ho
+  have hi : i < entries.length := by
+    rcases Nat.lt_or_ge i entries.length with h | h
+    · exact h
+    · rw [List.getElem?_eq_none h] at he; cases he
+  have hz : ((List.range entries.length).zip entries)[i]? = some (i, e) :=
+    List.getElem?_zip_eq_some.mpr ⟨by rw [List.getElem?_range hi], he⟩
+  rw [List.getElem?_map, hz] at ho
+  simp only [Option.map_some, Option.some.injEq] at ho
+  subst ho
+  refine ⟨rfl, ?_, ?_⟩
+  · intro hn
+    simp only [hn, withRandomShard]
+    exact hd i e he
+  · intro s hs
+    simp only [hs, withRandomShard]
+
+-- non-vacuity, and what an INCLUSIVE range would allow: with 3 shards the draw 3 is not below the count
+example : fillCount (some 3) = 3 ∧ fillCount none = 1 ∧ withRandomShard none 2 < fillCount (some 3) ∧
+    ¬ (withRandomShard none 3 < fillCount (some 3)) ∧
+    planShards [(some 3, none), (none, none), (some 7, some 5)] (fun i => [2, 0, 6].getD i 0) =
+      [(some 3, 2), (none, 0), (some 7, 5)] := by decide
+
 end ScyllaVerif.Props.C11Connect
